@@ -3,5 +3,5 @@
 P="$1"; shift
 D=$(/verif/tools/scratch.sh tests_$$)
 cd "$D" && patch -p1 -s < "$P" || { echo "patch does not apply"; rm -rf "$D"; exit 2; }
-RENO_LOG_LEVEL=40 timeout 3000 /venv/bin/python -m pytest -q -p no:cacheprovider --timeout=900 "$@" 2>&1 | tail -4
+PYTHONPATH="$D:/verif/shims" RENO_LOG_LEVEL=40 timeout 3000 /venv/bin/python -m pytest -q -p no:cacheprovider --timeout=900 "$@" 2>&1 | tail -4
 rm -rf "$D"
